@@ -20,7 +20,7 @@ from vfacts import strip, walk, method_name, root_path, is_node, children, call_
 from .prov import var_table, local_sources, origins
 
 RULE = 'KIND'
-FLOOR = 30
+FLOOR = 25
 ANCHORS = ['ExplicitTreeAutCore::TranslateDownward', 'ExplicitTreeAutCore::TranslateUpward', 'ExplicitTreeAutCore::ReindexStates',
            'ExplicitFiniteAutCore::ReindexStates']
 SCOPE = ('TranslateSymbols', 'TranslateDownward', 'TranslateUpward', 'ReindexStates', 'TranslateSymbols', 'CollapseStates', 'BuildStateIndex',
